@@ -67,6 +67,41 @@ def handleOverride (j : Json) : Except String Json := do
   let out := applyOverrides mods idxs stmts
   pure <| Json.arr (out.map fun s => Json.arr #[(match s.guard with | some g => Json.str g | none => Json.null), s.rhs]).toArray
 
+/-- `pow(10, log10(dt) - level + level*step/nsub)` exactly as the template computes it -/
+def subTarget (level step : Nat) (dt : Float) : Float :=
+  let nsub := 10 * level
+  let expo := Float.log10 dt - level.toFloat
+  let expo := expo + level.toFloat * step.toFloat / nsub.toFloat
+  Float.pow 10.0 expo
+
+def getFloat (j : Json) : Except String Float :=
+  match j with
+  | .num n => pure n.toFloat
+  | _ => throw "number expected"
+
+def handleSolve (j : Json) : Except String Json := do
+  let dt ← getFloat (← j.getObjVal? "dt")
+  let y0 ← getFloat (← j.getObjVal? "y0")
+  let cv ← (← (← j.getObjVal? "cv").getArr?).mapM fun o => do
+    let flag : Int ← (← o.getArrVal? 0).getInt?
+    let frac ← getFloat (← o.getArrVal? 1)
+    pure ((flag, frac) : Int × Float)
+  let re ← (← (← j.getObjVal? "reinit").getArr?).mapM (·.getNat?)
+  let env : Solve.Env Float := {
+    cv := fun i => match cv[i]? with
+      | none => .ok
+      | some (flag, frac) => if flag ≥ 0 then .ok else .fail ((-flag - 1).toNat) (fun t tout => t + frac * (tout - t)),
+    reinit := fun i => match re[i]? with | none => true | some b => b != 0,
+    sub := subTarget }
+  match Solve.solve env 0.0 y0 dt with
+  | .success y => pure <| Json.mkObj [("result", "success"), ("ybits", toString y.toBits)]
+  | .fail l y => pure <| Json.mkObj [("result", "fail"), ("ybits", toString y.toBits), ("loggedbits", toString l.toBits)]
+
+def handleOdeint (j : Json) : Except String Json := do
+  let mx ← (← j.getObjVal? "mxsteps").getNat?
+  let n ← (← j.getObjVal? "ncalls").getNat?
+  pure <| Json.mkObj [("success", Solve.odeintSolve mx n)]
+
 def handle (line : String) : String :=
   match Json.parse line with
   | .error e => (Json.mkObj [("error", s!"json: {e}")]).compress
@@ -76,6 +111,8 @@ def handle (line : String) : String :=
       match cmd with
       | "ode" => handleOde j
       | "override" => handleOverride j
+      | "solve" => handleSolve j
+      | "odeint" => handleOdeint j
       | _ => throw s!"unknown cmd {cmd}"
     match r with
     | .ok v => v.compress
